@@ -163,3 +163,5 @@ func runBeside(action func(), grace time.Duration) (finishedInTime bool, done ch
 		return false, done
 	}
 }
+
+func runtimeGosched() { runtime.Gosched() }
